@@ -9,7 +9,10 @@ AGGS = ["sum", "count", "min", "max", "average"]
 
 class G:
     def __init__(self, seed, p_shadow=0.0, p_window=0.15, p_join=0.15, p_append=0.08, p_group=0.2, max_expr=2,
-                 append_bare=0.2, sort_bias=0.0):
+                 append_bare=0.0, sort_bias=0.0, safe=True):
+        # safe: stay clear of constructs with known defects of the unchanged compiler (//, -(-x), %
+        # on possibly non-integer operands, literal-only columns), see known_findings.json
+        self.safe = safe
         self.r = random.Random(seed)
         self.p_shadow, self.p_window, self.p_join, self.p_append, self.p_group = p_shadow, p_window, p_join, p_append, p_group
         self.max_expr = max_expr
@@ -36,9 +39,17 @@ class G:
             return lit(r.choice([0, 1, 2, -2, 3, None]) if r.random() < 0.9 else (5, 2))
         if x < 0.75:
             op = r.choice(NUMOPS)
+            if self.safe and op == "//":
+                op = "*"
+            if self.safe and op == "%":
+                op = "+"
             return bin_(op, self.num(fr, d - 1), self.num(fr, d - 1))
         if x < 0.82:
-            return un("-", self.num(fr, d - 1))
+            inner = self.num(fr, d - 1)
+            if self.safe and (inner["t"] in ("un", "lit", "col")):
+                # -(-x) and -(<column that may be inlined as a negative literal>) are emitted as `--x`
+                return bin_("-", lit(0), inner)
+            return un("-", inner)
         if x < 0.92:
             return case((self.boolean(fr, d - 1), self.num(fr, d - 1)), (lit(True), self.num(fr, d - 1)))
         return case((self.boolean(fr, d - 1), self.num(fr, d - 1)))
@@ -62,7 +73,7 @@ class G:
         r = self.r
         f = r.choice(AGGS)
         a = agg(f, self.num(fr, 1) if r.random() < 0.3 else self.colref(fr))
-        if r.random() < 0.2:
+        if r.random() < 0.2 and not self.safe:
             return bin_(r.choice(["+", "*", "-"]), a, lit(r.choice([1, 2])))
         return a
 
@@ -70,7 +81,7 @@ class G:
         r = self.r
         fs = ["sum", "count", "min", "max", "average", "rank", "rank_dense"]
         if sorted_unique:
-            fs += ["row_number", "lag", "lead", "first", "last"]
+            fs += ["row_number", "lag", "lead"] + ([] if self.safe else ["first", "last"])
         f = r.choice(fs)
         return agg(f, self.colref(fr), r.choice([1, 1, 2]))
 
@@ -133,6 +144,8 @@ class G:
             elif x < 0.30:
                 nn = self.newname(fr)
                 e = self.num(fr) if r.random() > self.p_window else self.winexpr(fr, sorted_unique)
+                if self.safe and e["t"] in ("col", "lit"):
+                    e = bin_("+", e, lit(1))      # no pure alias / literal-only columns (F35, F25)
                 steps.append(derive(item(e, nn)))
                 fr = [(n0, q) for (n0, q) in fr if n0 != nn] + [(nn, "")]
             elif x < 0.46:
